@@ -750,11 +750,11 @@ func randGrepOpts(rng *rand.Rand, recs, mates []c16Rec) ([]c16Inst, []string) {
 	for _, f := range fams {
 		switch f {
 		case 0:
-			opts = append(opts, c16Inst{Fam: "l", N: max(1, anyLen())})
+			opts = append(opts, c16Inst{Fam: "l", N: max(2, anyLen())})
 		case 1:
 			opts = append(opts, c16Inst{Fam: "L", N: max(1, anyLen())})
 		case 2:
-			opts = append(opts, c16Inst{Fam: "c", N: []int{1, 2, 4, 5, 6, 10, 50, 51}[rng.Intn(8)]})
+			opts = append(opts, c16Inst{Fam: "c", N: []int{2, 2, 4, 5, 6, 10, 50, 51}[rng.Intn(8)]})
 		case 3:
 			opts = append(opts, c16Inst{Fam: "C", N: []int{1, 2, 4, 5, 6, 10, 50, 49}[rng.Intn(8)]})
 		case 4, 5, 6:
